@@ -309,9 +309,11 @@ func (h *FHDR) UnmarshalBinary(uplink bool, data []byte) error {
 	h.FCnt = binary.LittleEndian.Uint32(fCntBytes)
 
 	if len(data) > 7 {
-		h.FOpts = []Payload{
-			&DataPayload{Bytes: data[7:]},
+		fOpts := &DataPayload{}
+		if err := fOpts.UnmarshalBinary(uplink, data[7:]); err != nil {
+			return err
 		}
+		h.FOpts = []Payload{fOpts}
 	}
 
 	return nil
